@@ -568,8 +568,8 @@ def store_subscript(ip: Any, obj: Any, idx: Any, v: Any) -> None:
         raise Unsupported(f"item assignment on {obj!r}")
     if isinstance(obj, list) and isinstance(idx, SInt):
         raise Unsupported("symbolic index store into a concrete list")
-    if isinstance(obj, dict) and (isinstance(idx, Sym) or (not V.contains_sym(idx) and any(isinstance(k, Sym) for k in obj))):
-        # dict of concrete cardinality with symbolic scalar keys (held by identity): the store overwrites the
+    if isinstance(obj, dict) and (isinstance(idx, Sym) or (isinstance(idx, tuple) and V.contains_sym(idx)) or (not V.contains_sym(idx) and any(isinstance(k, Sym) for k in obj))):
+        # dict of concrete cardinality with symbolic scalar keys, or tuples of such (held by identity): the store overwrites the
         # first existing key equal to `idx` (one fork per key that may be equal), else inserts a new key
         for k in list(obj):
             c = V._eq(idx, k)
@@ -1617,6 +1617,9 @@ def str_method(ip: Any, obj: Any, name: str, args: list[Any], kwargs: dict[str, 
         return W(z3.Concat(*parts)) if len(parts) > 1 else W(parts[0])
     if name == "hex" and isb:
         raise Unsupported("bytes.hex")
+    if name == "split" and len(args) == 1 and not kwargs and isinstance(args[0], (str, bytes)) and len(args[0]) == 1:
+        _same_kind(ip, obj, args[0])
+        return split_single_char(ip, t, args[0], W, isb)
     if name in ("split", "rsplit", "partition", "rpartition", "splitlines", "lstrip", "rstrip", "removeprefix", "removesuffix", "format", "title", "casefold", "count", "zfill", "ljust", "rjust", "strip"):
         if name == "removeprefix":
             p = arg_t(0)
@@ -1635,6 +1638,78 @@ def str_method(ip: Any, obj: Any, name: str, args: list[Any], kwargs: dict[str, 
             return (W(head), W(mid), W(tail))
         raise Unsupported(f"str.{name} on a symbolic string (abstract it in the contract)")
     raise raise_(ip, AttributeError, f"'{kindname(obj)}' object has no attribute {name!r}")
+
+
+SPLIT_EXACT_PARTS = 6
+
+
+def split_single_char(ip: Any, t: Any, sep: Any, W: Any, isb: bool) -> SList:
+    """``t.split(sep)`` for a concrete one-character separator, exact on the part count up to
+    ``SPLIT_EXACT_PARTS`` and on the first ``SPLIT_EXACT_PARTS`` parts (later parts: unconstrained).
+
+    CPython: the result has one more element than there are occurrences of ``sep``; the elements are
+    the maximal sep-free pieces in order, so ``sep.join(result) == t``.  Encoding: witnesses ``h_k``
+    (pieces) and ``r_k`` (what follows piece k), which exist and are unique for every ``t``:
+    ``t = h_0 r_0``; ``r_k = ""`` or ``r_k = sep h_{k+1} r_{k+1}``; every ``h_k`` is sep-free; and the
+    count ``n`` is tied both to the chain (``n = k+1`` iff ``r_k`` is the first empty remainder) and to
+    the regular characterisation ``n = k`` iff ``t`` in ``(N sep){k-1} N`` with ``N`` = sep-free strings."""
+    from . import regex
+
+    S = ip.S
+    K = SPLIT_EXACT_PARTS
+    c = sep[0] if isinstance(sep, bytes) else ord(sep)
+    # the witnesses are unique, so a repeated split of the same term (on this path) reuses them
+    memo = S.__dict__.setdefault("_split_memo", {})
+    mk = (t.get_id(), c, isb)
+    if mk in memo:
+        getf0, n0 = memo[mk][:2]
+        return SList(V.BytesShape if isb else V.StrShape, getf0, n0)
+    limit = 0xFF if isb else regex.MAXCHAR
+    if c > limit:
+        raise Unsupported("split separator beyond the modelled character range")
+    sep_t = z3.StringVal(chr(c))
+    nosep = regex._union([regex._range(lo, hi) for lo, hi in regex._complement([(c, c)], limit)])
+    N = z3.Star(nosep)
+    anyc = z3.Star(regex._range(0, limit))
+    sep_re = z3.Re(sep_t)
+    E = z3.StringVal("")
+    h = [z3.String(S.fresh_name(f"split_part{k}")) for k in range(K)]
+    r = [z3.String(S.fresh_name(f"split_rest{k}")) for k in range(K)]
+    n = z3.Int(S.fresh_name("split_n"))
+    S.assume(t == z3.Concat(h[0], r[0]))
+    for k in range(K):
+        S.assume(z3.InRe(h[k], N))
+        if k < K - 1:
+            S.assume(z3.Or(r[k] == E, r[k] == z3.Concat(sep_t, h[k + 1], r[k + 1])))
+            S.assume(z3.Implies(r[k] == E, z3.And(h[k + 1] == E, r[k + 1] == E)))
+        else:
+            S.assume(z3.Or(r[k] == E, z3.PrefixOf(sep_t, r[k])))
+    S.assume(n >= 1)
+
+    def exactly(k: int) -> Any:  # strings with exactly k parts
+        return z3.Concat(*([N, sep_re] * (k - 1) + [N])) if k > 1 else N
+
+    for k in range(1, K + 1):
+        first_empty = z3.And(r[k - 1] == E, r[k - 2] != E) if k >= 2 else r[0] == E
+        S.assume((n == k) == first_empty)
+        S.assume((n == k) == z3.InRe(t, exactly(k)))
+    S.assume((n > K) == (r[K - 1] != E))
+    S.assume((n > K) == z3.InRe(t, z3.Concat(*([N, sep_re] * K + [anyc]))))
+    rest = z3.Function(S.fresh_name("split_later_part"), z3.IntSort(), z3.StringSort())
+
+    def getf(j: Any) -> Any:
+        js = z3.simplify(j) if z3.is_expr(j) else z3.IntVal(j)
+        if z3.is_int_value(js):
+            i = js.as_long()
+            return W(h[i]) if 0 <= i < K else W(rest(js))
+        v = rest(js)
+        for k in range(K - 1, -1, -1):
+            v = z3.If(js == k, h[k], v)
+        return W(v)
+
+    S.note(f"str.split(<1 char>) modelled exactly for the part count up to {K} and the first {K} parts; later parts unconstrained")
+    memo[mk] = (getf, n, t)  # t kept alive so its AST id is not reused
+    return SList(V.BytesShape if isb else V.StrShape, getf, n)
 
 
 def list_method(ip: Any, obj: SList, name: str, args: list[Any], kwargs: dict[str, Any]) -> Any:
